@@ -1,0 +1,10 @@
+// Copyright (c) HashiCorp, Inc.
+// SPDX-License-Identifier: MPL-2.0
+
+//go:build !verif
+
+package eventlogger
+
+// verifPoint marks a protocol step of graph.process/doProcess. It only does
+// something when building with the "verif" build tag (see verif_on.go).
+func verifPoint(string, PipelineID, NodeID) {}
